@@ -73,6 +73,8 @@ def convert_const(name, T, ctx):
 
 def convert(t, var_names, assms, to_real, ctx):
     """Convert term t to Z3 input."""
+    bound_names = set()  # names introduced for bound variables in this term
+
     def rec(t):
         if t.is_var():
             z3_t = convert_const(t.name, t.T, ctx)
@@ -84,6 +86,7 @@ def convert(t, var_names, assms, to_real, ctx):
             var_names.append(nm)
             v = Var(nm, t.arg.var_T)
             z3_v = convert_const(nm, t.arg.var_T, ctx)
+            bound_names.add(nm)
             body = rec(t.arg.subst_bound(v))
             if t.arg.var_T == NatType:
                 # natural-number binders range over the non-negative integers only
@@ -94,6 +97,7 @@ def convert(t, var_names, assms, to_real, ctx):
             var_names.append(nm)
             v = Var(nm, t.arg.var_T)
             z3_v = convert_const(nm, t.arg.var_T, ctx)
+            bound_names.add(nm)
             body = rec(t.arg.subst_bound(v))
             if t.arg.var_T == NatType:
                 body = z3.And(z3_v >= 0, body)
@@ -142,7 +146,8 @@ def convert(t, var_names, assms, to_real, ctx):
             return rec(t.arg1) / rec(t.arg)
         elif t.is_comb('of_nat', 1):
             if t.get_type() == RealType:
-                if t.arg.is_var():
+                if t.arg.is_var() and t.arg.name not in bound_names:
+                    # abstraction by one real constant is only sound for free variables
                     if t.arg.name not in to_real:
                         nm = name.get_variant_name("r" + t.arg.name, var_names)
                         var_names.append(nm)
